@@ -5,3 +5,4 @@ open HmcVerif.C19
 #print axioms history_chain
 #print axioms history_starts_at_initial
 #print axioms bad_step_never_returned
+#print axioms interrupted_returned_is_last
